@@ -182,8 +182,14 @@ def run_scale(case):
     # the estimated system is the true one at the wrong scale
     est_bs = {i: Pose(p.rot_matrix.copy(), p.translation / k) for i, p in true_bs.items()}
     est_cf = [Pose(p.rot_matrix.copy(), p.translation / k) for p in true_cf]
+    if case.get('alias'):
+        # the same Pose object listed twice (a caller may well pass one pose for two samples taken at the same spot)
+        est_cf.append(est_cf[0])
+        samples.append(samples[0])
+        true_cf.append(true_cf[0])
+        out.feat('aliased-input')
     snap = (_snapshot(est_bs), _snapshot(est_cf))
-    desc = 'k=%r stations=%d cfs=%r' % (k, len(true_bs), [(c['pos'], c['tilt']) for c in case['cfs']])
+    desc = 'k=%r stations=%d cfs=%r alias=%r' % (k, len(true_bs), [(c['pos'], c['tilt']) for c in case['cfs']], case.get('alias'))
 
     def check(label, res, want_factor):
         bs_s, cf_s, f = res
@@ -238,7 +244,8 @@ def scale_case(draw):
     m = draw(st.integers(1, 5))
     cfs = [{'pos': [draw(st.floats(-1, 1)), draw(st.floats(-1, 1)), draw(st.floats(0.0, 1.0))], 'yaw': draw(st.floats(-math.pi, math.pi)),
             'tilt': draw(st.sampled_from([0.0, 0.0, 5.0, 10.0, 20.0])), 'axis': [draw(st.floats(-1, 1)), draw(st.floats(-1, 1)) + 1.5, 0.0]} for _ in range(m)]
-    return {'stations': stations, 'cfs': cfs, 'k': draw(st.one_of(st.floats(0.2, 5.0), st.sampled_from([1.0, 0.5, 2.0, 1.26]))), 'ref': draw(st.integers(0, 4))}
+    return {'stations': stations, 'cfs': cfs, 'k': draw(st.one_of(st.floats(0.2, 5.0), st.sampled_from([1.0, 0.5, 2.0, 1.26]))), 'ref': draw(st.integers(0, 4)),
+            'alias': draw(st.sampled_from([False, False, True]))}
 
 
 def subchecks(tier):
